@@ -245,11 +245,11 @@ def run(prog, chk):
     from .server_common import io_outcomes
     for f, what, prim in ((w, "write", "Socket::send"), (sfn(prog, P + "ClientImpl::read"), "read", "Socket::recv"), (run_, "drain arm", "Socket::send")):
         tab = io_outcomes(f, prim)
-        want = {"would-block": False, "error": True, "closed": True, "partial": False}
+        want = {"would-block": False, "error": True, "closed": True, "partial": False, "full": False}
         if tab is None:
             chk.bad("C13.e", f, "would-block-consumer:" + what.replace(" ", "-"), "%s:%s" % (f.file, f.line), "%s: the call to %s was not found" % (what, prim))
             continue
-        und = [k for k, (c, end) in tab.items() if isinstance(end, str) and end.startswith("undetermined")]
+        und = [k for k, t4 in tab.items() if isinstance(t4[1], str) and t4[1].startswith("undetermined")]
         wrong = [k for k in want if tab[k][0] != want[k]]
         if und:
             chk.bad("C13.e", f, "would-block-consumer:" + what.replace(" ", "-"), "%s:%s" % (f.file, f.line), "%s: a guard could not be evaluated for result classes %s (%s)" % (what, und, tab[und[0]][1]))
@@ -258,8 +258,15 @@ def run(prog, chk):
             chk.bad("C13.e", f, "would-block-consumer:" + what.replace(" ", "-"), "%s:%s" % (f.file, f.line),
                     "%s treats a %s result of %s as %s; (-1, error 0) is would-block (keep the data, no close), (-1, error) and 0 mean the connection is gone" % (
                         what, prim, k, "closed" if tab[k][0] else "still open"))
+        elif what == "write" and not (tab["would-block"][2] and tab["partial"][2] and not tab["full"][2] and tab["would-block"][3] == 1 and tab["partial"][3] == 1 and
+                                      tab["full"][3] == 1 and tab["error"][3] == 0 and tab["closed"][3] == 0):
+            chk.bad("C13.e", f, "write-outcome-table", "%s:%s" % (f.file, f.line),
+                    "write(): for send() results {would-block, partial, full, error, closed} the data must be {buffered, buffered, not buffered, -, -} with return "
+                    "{true, true, true, false, false}; found buffered=%s returns=%s — on would-block the bytes are neither sent nor queued but reported as accepted" % (
+                        [tab[k][2] for k in ("would-block", "partial", "full")], [tab[k][3] for k in ("would-block", "partial", "full", "error", "closed")]))
         else:
-            chk.ok("C13.e", f, "%s: (-1, error 0) retried, (-1, error) and 0 closed, partial results kept open" % what, "%s:%s" % (f.file, f.line), "decision table over 4 result classes (guard-directed walk)", evals=4)
+            chk.ok("C13.e", f, "%s: (-1, error 0) retried, (-1, error) and 0 closed, partial results kept open%s" % (what, "; would-block and partial sends buffer the data" if what == "write" else ""),
+                   "%s:%s" % (f.file, f.line), "decision table over 5 result classes (guard-directed walk)", evals=5)
     # ------------------------------------------------------------------ C13.f
     pst = [s for s in q.stores(w) if q.no_casts(w.r(s.lhs)) == "*postponed"]
     for s in pst:
